@@ -350,7 +350,7 @@ def s_both(draw):
     elif spoil == "only60":  # break a BDS 5,0 rule only: track status (bit 12) cleared over track bits while heading status is set
         mb = P(P(P(P(mb, 1, 1, 1), 12, 12, 0), 13, 13, 1), 14, 23, u(1, 500))
     return {"mb": mb, "spd_ref": draw(st.one_of(gen.ufloat(0, 600), st.sampled_from([0.0, 450.0]))), "trk_ref": draw(gen.ufloat(0, 360)), "alt_ref": alt_ref,
-            "df": 21, "ac": 0, "ctx_head": draw(gen.ubits(27)), "ctx_addr": draw(gen.ubits(24)), "spoil": spoil}
+            "df": 21, "ac": 0, "ctx_head": draw(gen.ubits(27)), "ctx_addr": draw(gen.ubits(24)), "spoil": spoil, "hc": draw(gen.hexcase)}
 
 
 def vxy(v, ang):
